@@ -89,7 +89,7 @@ func outLast() any                               { return nil }
 // node (the optional ones - opt_datetime_precision, opt_datetime_template and
 // what they derive from on the empty alternative - may be nil):
 //@ grammar nonnil scalar_value path_primary expr array_accessor any_path accessor_op key predicate delimited_predicate index_elem starts_with_initial expr_or_predicate datetime_template csv_elem datetime_precision method accessor_expr csv_list index_list
-//@ grammar props C03 C04
+//@ grammar props C03 C04 C19
 //@ grammar inv comp_op comparison: self.optype >= ast.BinaryEqual && self.optype <= ast.BinaryGreaterOrEqual
 //@ grammar inv index_elem subscript: is[*ast.BinaryNode](self.value) && as[*ast.BinaryNode](self.value).Operator() == ast.BinarySubscript
 //@ grammar inv index_list subscripts: forall(func(i int) bool { return implies(0 <= i && i < len(self.indexs), is[*ast.BinaryNode](self.indexs[i]) && as[*ast.BinaryNode](self.indexs[i]).Operator() == ast.BinarySubscript) })
